@@ -682,7 +682,7 @@ theorem process_eq (st : ISt) (e : Entry) (w : σ) :
       | (none, st', w') =>
         if st.iters.length < o.minDepth then (none, st', w')
         else if (o.files ∧ !e.file) ∨ (!o.files ∧ o.dirs ∧ !e.dir) then (none, st', w')
-        else if e.dir ∧ o.contentsFirst then (none, { st' with deferred := e :: st'.deferred }, w')
+        else if e.dir ∧ o.contentsFirst then (none, { st' with deferred := (st.iters.length, e) :: st'.deferred }, w')
         else (some (.ok e), st', w') := rfl
 
 theorem descendOf_w (st : ISt) (e : Entry) (w : σ) :
